@@ -19,7 +19,7 @@ pub fn prop() -> Prop {
     Prop {
         id: "C11",
         level: "exploration",
-        rule: "(1) the complete control-template set: statement trees over {block, als, als/anders, counter loops running 0, 1 and 3 iterations, immediately applied function bodies} nested up to N nodes in which every statement position holds one of {numbered trace point, stop, volgende, antwoord, declaration, empty block, expression}, conditions drawn from {ja, nee, counter tests}, with als/zolang also used as values; each compared with the reference interpreter (trace = output, value, error). (2) residue: every loop-body template up to M nodes iterated 0, 1, 2, 100 and 70 000 times and followed by a probe suffix (a two-argument call, an array literal, a second loop) whose output must equal the model's. (1c) deep chains: every sequence of 4 (quick) / 5 (thorough) nested control constructs from {als, als-anders with the hole in either branch, counter loop, loop on `ja`, block} around an innermost {trace, stop, volgende, antwoord, value}, a trace point before and after every level, all four truth assignments; (1b) sibling templates: a function whose body is a loop (literal `ja` or counter) around two statements S; T, each any depth-1 template, with and without a trailing value, called with all four truth assignments; (2b) condition-driven loops (the progress is made by an assignment, a call or a conjunction in the condition) around every body of <= 2 statements from {volgende, stop, trace, empty block, declaration, value, three branch shapes}, 0/1/3 iterations, as a statement and as an array element; (3) for every program, the abstract stack machine of its real bytecode (bcmc) must have no cycle that grows the stack. Non-trivial = contains a loop or a branch and is defined by the model; distinct = distinct texts",
+        rule: "(1) the complete control-template set: statement trees over {block, als, als/anders, counter loops running 0, 1 and 3 iterations, immediately applied function bodies} nested up to N nodes in which every statement position holds one of {numbered trace point, stop, volgende, antwoord, declaration, empty block, expression}, conditions drawn from {ja, nee, counter tests}, with als/zolang also used as values; each compared with the reference interpreter (trace = output, value, error). (2) residue: every loop-body template up to M nodes iterated 0, 1, 2, 100 and 70 000 times and followed by a probe suffix (a two-argument call, an array literal, a second loop) whose output must equal the model's. (1c) deep chains: every sequence of 4 (quick) / 5 (thorough) nested control constructs from {als, als-anders with the hole in either branch, counter loop, loop on `ja`, block} around an innermost {trace, stop, volgende, antwoord, value}, a trace point before and after every level, all four truth assignments; (1b) sibling templates: a function whose body is a loop (literal `ja` or counter) around two statements S; T, each any depth-1 template, or around THREE statements from a 20-item set (every leaf and one-level branches around each exit), with and without a trailing value, called with all four truth assignments; (2b) condition-driven loops (the progress is made by an assignment, a call or a conjunction in the condition) around every body of <= 2 statements from {volgende, stop, trace, empty block, declaration, value, three branch shapes}, 0/1/3 iterations, as a statement and as an array element; (3) for every program, the abstract stack machine of its real bytecode (bcmc) must have no cycle that grows the stack. Non-trivial = contains a loop or a branch and is defined by the model; distinct = distinct texts",
         assumptions: &["the value of a loop that iterated is unspecified (U4) and never compared", "reference interpreter control-flow rules of DESIGN 4.2"],
         run,
         replay,
@@ -296,6 +296,49 @@ fn depth_templates(d: usize, in_loop: bool, f: &mut dyn FnMut(&Stmt) -> bool) ->
 /// statements S; T, each any depth-1 template (leaf, als, als-anders, inner loop, block around a leaf): the
 /// shapes where what follows an `als` inside a loop decides how the loop and the function are left.
 pub fn sibling_templates(f: &mut dyn FnMut(&[Stmt]) -> bool) -> bool {
+    // THREE sibling statements from a reduced set (every leaf, and one-level branches around each exit)
+    {
+        let mut items: Vec<Stmt> = vec![
+            print1(int(7)),
+            Stmt::Return(int(2)),
+            let_("v", int(3)),
+            Stmt::Block(vec![]),
+            es(int(1)),
+            es(func("hulp", &[], vec![Stmt::Return(int(4))])),
+            Stmt::Break,
+            Stmt::Continue,
+        ];
+        for c in ["a", "b"] {
+            items.push(es(iff(id(c), vec![Stmt::Break], None)));
+            items.push(es(iff(id(c), vec![Stmt::Continue], None)));
+            items.push(es(iff(id(c), vec![Stmt::Return(int(5))], None)));
+            items.push(es(iff(id(c), vec![Stmt::Break], Some(vec![Stmt::Continue]))));
+            items.push(es(iff(id(c), vec![print1(int(7))], Some(vec![Stmt::Return(int(6))]))));
+        }
+        items.push(Stmt::Block(vec![let_("w", int(1)), print1(id("w"))]));
+        items.push(es(whil(boolean(true), vec![print1(int(7)), Stmt::Break])));
+        for literal in [true, false] {
+            for s1 in &items {
+                for s2 in &items {
+                    for s3 in &items {
+                        let lp = if literal {
+                            es(whil(boolean(true), vec![s1.clone(), s2.clone(), s3.clone()]))
+                        } else {
+                            es(whil(infix(id("n"), Operator::Lt, int(2)), vec![es(assign(id("n"), infix(id("n"), Operator::Add, int(1)))), s1.clone(), s2.clone(), s3.clone()]))
+                        };
+                        let mut prog = vec![es(func("t", &["a", "b"], vec![let_("n", int(0)), lp, es(int(9))]))];
+                        for (a, b) in [(true, true), (true, false), (false, true), (false, false)] {
+                            prog.push(es(calln("print", vec![array(vec![int(5), calln("t", vec![boolean(a), boolean(b)]), int(6)])])));
+                        }
+                        renumber_prints(&mut prog);
+                        if !f(&prog) {
+                            return false;
+                        }
+                    }
+                }
+            }
+        }
+    }
     let mut firsts: Vec<Stmt> = Vec::new();
     depth_templates(1, true, &mut |s| {
         firsts.push(s.clone());
